@@ -230,4 +230,26 @@ theorem basis_lift_re {A : Op ℂ} (hE : IsRLinear A.nin A.eval) (hB : IsRLinear
     ring
   rw [Finset.sum_congr rfl l, Finset.sum_congr rfl r, Finset.sum_comm]
 
+/-! ### complex scalar times an operator with a real output space (`_to_output_space` keeps the real part) -/
+
+/-- projection on the real subfield, as a complex number (`y.real` of `_to_output_space`) -/
+def creal (z : ℂ) : ℂ := ((z.re : ℝ) : ℂ)
+
+/-- `c * A` for complex `c` and `A` with real-valued output: `adj y = A.adj(Re(conj(c)·y))` is the adjoint in
+    `Re⟪·,·⟫` -/
+theorem smulRe_isAdjRe {A : Op ℂ} (hA : IsAdjRe A) (hreal : ∀ x, ∀ i < A.nout, (A.eval x i).im = 0) (c : ℂ) :
+    IsAdjRe (Op.smulRe creal c A) := by
+  rw [isAdjRe_iff] at hA ⊢
+  intro x y
+  have h := hA x (fun i => creal (star c * y i))
+  show (ip A.nout (vsmul c (A.eval x)) y).re = (ip A.nin x (A.adj fun i => creal (conj c * y i))).re
+  rw [conj_eq_star] at *
+  rw [← h]
+  simp only [ip_eq, Complex.re_sum]
+  apply Finset.sum_congr rfl
+  intro i hi
+  have hi0 := hreal x i (Finset.mem_range.mp hi)
+  simp [vsmul, creal, Complex.mul_re, Complex.mul_im, hi0]
+  ring
+
 end Scico.Adjoint
